@@ -60,7 +60,20 @@ def r1_innermost(c, facts):
                 else:
                     c.bad(R, '%s:outermost-first' % q, '%s walks the scope stack from the bottom: an outer binding shadows an inner one (%s)' % (q, fn.loc()), **inst)
         if not found:
-            # loop form: for s in self.0.iter().rev()
+            # recursive form: `let (innermost, enclosing) = scopes.split_last()?; innermost.get(e).or(lookup_in(enclosing, e))`
+            for g in facts.family(fn):
+                if not g.hir:
+                    continue
+                for e, anc in hir_walk(g.hir['body']):
+                    if e['k'] == 'mcall' and e['name'] in ('split_last', 'split_first', 'split_last_mut', 'split_first_mut') and 'HashMap' in e['recv']['ty']:
+                        found = True
+                        inner_first = e['name'].startswith('split_last')
+                        inst = {'fn': q, 'chain': [e['name'], 'recursion on the rest'], 'innermost_first': inner_first}
+                        if inner_first:
+                            c.ok(R, inst)
+                        else:
+                            c.bad(R, '%s:outermost-first' % q, '%s peels the scope stack from the bottom: an outer binding shadows an inner one (%s)' % (q, fn.loc()), **inst)
+        if not found:
             c.bad(R, '%s:scope-iteration-not-found' % q, '%s no longer iterates a Vec of scopes in a recognisable way' % q)
 
 
@@ -98,6 +111,12 @@ def opener_kinds(c, facts, fn, arm_variant, target_method, owner='env::Env::'):
                         if y['k'] == 'mcall' and y['m'].endswith(owner + target_method):
                             for k in ks:
                                 kinds.setdefault(k, fn.qname)
+                        elif y['k'] == 'mcall':
+                            # a method of a private state struct (`rs.open_declaration(decl)`)
+                            tgt = facts.fns.get(callee_id(y))
+                            if tgt is not None and tgt.mir and tgt.crate == fn.crate and P.call_blocks(tgt, owner + target_method):
+                                for k in ks:
+                                    kinds[k] = tgt.qname
     if kinds:
         return kinds
     # two stages: a helper classifies (cursor, node kind) into a variant of a private enum, resolve() dispatches on it
